@@ -75,6 +75,61 @@ class SpecMDP(TabularMarkovDecisionProcess):
         return _flag(self.sp, s)
 
 
+class Tagged:
+    """a state object that compares, hashes, sorts and prints like its raw label but carries a note (which step emitted
+    it) that takes no part in equality - like a dataclass field declared with compare=False"""
+    __slots__ = ("raw", "tag")
+
+    def __init__(self, raw, tag=None):
+        self.raw, self.tag = raw, tag
+
+    def __hash__(self):
+        return hash(self.raw)
+
+    def __eq__(self, o):
+        return self.raw == (o.raw if isinstance(o, Tagged) else o)
+
+    def __ne__(self, o):
+        return not self.__eq__(o)
+
+    def __lt__(self, o):
+        return self.raw < (o.raw if isinstance(o, Tagged) else o)
+
+    def __gt__(self, o):
+        return self.raw > (o.raw if isinstance(o, Tagged) else o)
+
+    def __repr__(self):
+        return repr(self.raw)
+
+
+def _raw(x):
+    return x.raw if isinstance(x, Tagged) else x
+
+
+class AnnotatedMDP(SpecMDP):
+    """every emitted next state carries the (state, action) that emitted it, and reward(s, a, ns) reads that note: it
+    is the spec's reward when the note is absent or names this very step, and garbage (+1000) when it is handed an
+    equal state object that some OTHER step emitted. R(s, a, s') is still a function of (s, a, s')."""
+
+    def next_state_dist(self, s, a):
+        d = SpecMDP.next_state_dist(self, s, a)
+        tag = (_raw(s), a)
+        if isinstance(d, DeterministicDistribution):
+            return DeterministicDistribution(Tagged(_raw(d.value), tag))
+        return DictDistribution({Tagged(_raw(ns), tag): p for ns, p in d.items()})
+
+    def reward(self, s, a, ns):
+        r = SpecMDP.reward(self, s, a, ns)
+        tag = getattr(ns, "tag", None)
+        if tag is not None and tag != (_raw(s), a):
+            return r + 1000.0
+        return r
+
+    def initial_state_dist(self):
+        d = SpecMDP.initial_state_dist(self)
+        return DictDistribution({Tagged(_raw(s), None): p for s, p in d.items()})
+
+
 class PersistentActionsMDP(SpecMDP):
     """actions(s) hands out the SAME list object on every call (as QuickMDP(actions=[...]) would)"""
     def __init__(self, sp):
@@ -127,6 +182,8 @@ def build(sp, rep, shuffle_rng=None):
         return quick(sp)
     if rep == "quicktabular_explicit":
         return quick(sp, explicit=True, shuffle_rng=shuffle_rng)
+    if rep == "annotated":
+        return AnnotatedMDP(sp)
     raise ValueError(rep)
 
 
